@@ -104,7 +104,7 @@ func openStore(dir string, pass []byte, cfg storeCfg, opts ...store.Option) (*st
 }
 
 func TestStoreModel(t *testing.T) {
-	ev.Checks(2000, 2500)
+	ev.Checks(1800, 2500)
 
 	rapid.Check(t, func(rt *rapid.T) {
 		dir, err := os.MkdirTemp("", "c09-model-")
